@@ -149,3 +149,265 @@ Proof.
   unfold lcontent, live_of, rcontent, f_items. rewrite !flat_map_app, rws_entries, rws_substs.
   destruct (litems_content (f_rest f) (f_first f)) as [-> ->]. reflexivity.
 Qed.
+
+(* ------------------------------------------------------------------ live_of: well-formed *)
+Lemma lrel_of_ok r last : wf_rel r = true -> lrel_ok (lrel_of r last) = true.
+Proof.
+  unfold wf_rel, lrel_ok, lrel_of. intros H. andb_hyps. cbn [l_name l_qual l_ver l_archs l_profs l_trail]. andb_goal; auto.
+  - destruct (r_qual r) as [q|]; [|reflexivity]. cbn [opt_ok option_map inner_ok] in *. unfold qual_ok in H4. andb_hyps.
+    unfold qual_in_ok. rewrite (ws_toks_ok _ H4). now andb_goal.
+  - destruct (r_ver r) as [v|]; [|reflexivity]. cbn [opt_ok option_map inner_ok] in *. unfold vclause_ok in H3. andb_hyps.
+    unfold vclause_in_ok. rewrite (ws_toks_ok _ H3). now andb_goal.
+  - destruct (r_archs r) as [g|]; [|reflexivity]. cbn [opt_ok option_map inner_ok] in *. unfold group_ok in H2. andb_hyps.
+    unfold group_in_ok. rewrite (ws_toks_ok _ H2). now andb_goal.
+  - rewrite forallb_forall in *. intros x Hx. apply in_map_iff in Hx as (g & <- & Hin). cbn [fst snd].
+    specialize (H1 g Hin). unfold group_ok in H1. andb_hyps. unfold group_in_ok. rewrite (ws_toks_ok _ H1). now andb_goal.
+  - destruct (owns_trail r last); [now apply ws_toks_ok|reflexivity].
+Qed.
+Lemma rel_left_ok r last : wf_rel r = true -> ws_ok (rel_left r last) = true.
+Proof. unfold wf_rel, rel_left. intros H. andb_hyps. now destruct (owns_trail r last). Qed.
+Lemma lalts_of_ok alts : forall r last, wf_rel r = true -> forallb wf_alt alts = true ->
+  forallb alt_ok (fst (lalts_of r alts last)) = true /\ wsl_ok (snd (lalts_of r alts last)) = true.
+Proof.
+  induction alts as [|[w r'] alts' IH]; intros r last Hr Ha; cbn [lalts_of].
+  - cbn [fst snd]. split; [reflexivity|]. destruct last; [apply ws_toks_ok, rel_left_ok, Hr|reflexivity].
+  - cbn [forallb] in Ha. andb_hyps. unfold wf_alt in H. cbn [fst snd] in H. andb_hyps.
+    destruct (IH r' last H1 H0) as [I1 I2]. destruct (lalts_of r' alts' last) as [rest trail]. cbn [fst snd forallb] in *.
+    split; [|exact I2]. rewrite I1, andb_true_r. unfold alt_ok. cbn [fst snd].
+    rewrite (ws_toks_ok _ (rel_left_ok r false Hr)), (ws_toks_ok _ H), (lrel_of_ok r' _ H1). reflexivity.
+Qed.
+Lemma lentry_of_ok r alts last : wf_rel r = true -> forallb wf_alt alts = true -> lentry_ok (lentry_of r alts last) = true.
+Proof.
+  intros Hr Ha. unfold lentry_of. destruct (lalts_of_ok alts r last Hr Ha) as [H1 H2].
+  destruct (lalts_of r alts last) as [la trail]. rewrite lentry_ok_eq. cbn [e_first e_alts e_trail fst snd] in *.
+  now rewrite (lrel_of_ok r _ Hr), H1, H2.
+Qed.
+Lemma rws_ok b s : ws_ok s = true -> forallb (relem_ok b) (rws s) = true.
+Proof.
+  intros H. apply ws_toks_ok in H. unfold rws, wsl_ok in *. induction (wsl_of s) as [|a l IHl]; [reflexivity|].
+  cbn [forallb map relem_ok] in *. andb_hyps. andb_goal; auto.
+Qed.
+Lemma rws_all_ws s : forallb is_rw (rws s) = true.
+Proof. unfold rws. induction (wsl_of s) as [|a l IHl]; [reflexivity|]. exact IHl. Qed.
+Lemma rels_left_ok alts : forall r last, wf_rel r = true -> forallb wf_alt alts = true -> ws_ok (rels_left r alts last) = true.
+Proof.
+  induction alts as [|[w r'] alts' IH]; intros r last Hr Ha; cbn [rels_left].
+  - destruct last; [reflexivity|now apply rel_left_ok].
+  - cbn [forallb] in Ha. andb_hyps. unfold wf_alt in H. cbn [snd] in H. andb_hyps. now apply IH.
+Qed.
+Lemma litem_of_ok b i last : wf_item b i = true ->
+  forallb (relem_ok b) (litem_of i last) = true /\
+  exists s, forall need, sep_run need (litem_of i last) = match i with IEmpty => Some need | _ => if need then None else Some s end.
+Proof.
+  destruct i as [r alts|seg segs trail|]; cbn [wf_item litem_of]; intros H; andb_hyps.
+  - split.
+    + cbn [forallb relem_ok]. rewrite (lentry_of_ok r alts last H H0). cbn [andb]. apply rws_ok. now apply rels_left_ok.
+    + exists true. intros [|]; cbn [sep_run]; [reflexivity|]. apply sep_run_all_ws, rws_all_ws.
+  - split.
+    + cbn [forallb relem_ok]. rewrite H, H2, H1. cbn [andb]. now apply rws_ok.
+    + exists true. intros [|]; cbn [sep_run]; [reflexivity|]. apply sep_run_all_ws, rws_all_ws.
+  - split; [reflexivity|]. exists true. reflexivity.
+Qed.
+Lemma litems_of_ok b more : forall i, wf_item b i = true -> forallb (wf_more b) more = true ->
+  forallb (relem_ok b) (litems_of i more) = true /\ exists s, sep_run false (litems_of i more) = Some s.
+Proof.
+  induction more as [|[w i'] more IH]; intros i Hi Hm; cbn [litems_of].
+  - rewrite app_nil_r. destruct (litem_of_ok b i (is_nil (@nil (str * item))) Hi) as (H1 & s & H2). split; [exact H1|].
+    rewrite H2. destruct i; eauto.
+  - cbn [forallb] in Hm. andb_hyps. unfold wf_more in H. cbn [fst snd] in H. andb_hyps.
+    destruct (litem_of_ok b i (is_nil ((w, i') :: more)) Hi) as (H2 & s & H3).
+    destruct (IH i' H1 H0) as (H4 & s' & H5). split.
+    + rewrite forallb_app, H2. cbn [forallb relem_ok andb]. rewrite forallb_app, (rws_ok b w H), H4. reflexivity.
+    + exists s'. rewrite sep_run_app, H3.
+      assert (Hc : sep_run false (rws w ++ litems_of i' more) = Some s') by (now rewrite sep_run_app, sep_run_all_ws by apply rws_all_ws).
+      destruct i; cbn [sep_run]; exact Hc.
+Qed.
+Theorem lwf_live_of b f : wf_rfield b f = true -> lwf b (live_of f) = true.
+Proof.
+  unfold wf_rfield, live_of. intros H. andb_hyps. destruct (litems_of_ok b (f_rest f) (f_first f) H1 H0) as (H2 & s & H3).
+  apply (lwf_intro _ _ s).
+  - now rewrite forallb_app, (rws_ok b _ H), H2.
+  - now rewrite sep_run_app, sep_run_all_ws by apply rws_all_ws.
+Qed.
+
+(* ------------------------------------------------------------------ norm: the text of the parts *)
+Lemma rttext_app a b : rttext (a ++ b) = rttext a ++ rttext b.
+Proof. unfold rttext. now rewrite map_app, concat_app. Qed.
+Lemma rttext_cons k s r : rttext ((k, s) :: r) = s ++ rttext r.
+Proof. reflexivity. Qed.
+Lemma texts_one (t : rtree) : texts [t] = text t.
+Proof. unfold texts. cbn [flat_map]. apply app_nil_r. Qed.
+Lemma rttext_term t : rttext (term_toks t) = term_text t.
+Proof.
+  unfold term_toks, term_text. rewrite !rttext_app, rttext_ws_toks. f_equal. destruct (t_neg t); cbn; now rewrite ?app_nil_r.
+Qed.
+Lemma rttext_terms l : rttext (flat_map term_toks l) = flat_map term_text l.
+Proof. induction l as [|t r IH]; [reflexivity|]. cbn [flat_map]. now rewrite rttext_app, rttext_term, IH. Qed.
+Lemma text_group_node k ok ck o c g : text (group_node k ok ck o c g) = group_body_text o c g.
+Proof.
+  unfold group_node, group_body_text, group_body_toks. rewrite text_node, texts_elems. rewrite rttext_cons. cbn [app]. f_equal.
+  rewrite !rttext_app, rttext_terms, rttext_ws_toks. reflexivity.
+Qed.
+Lemma rttext_vop o : rttext (vop_toks o) = vop_text o.
+Proof. destruct o; reflexivity. Qed.
+Lemma rttext_vtext v : rttext (vtext_toks v) = vtext v.
+Proof.
+  unfold vtext_toks, vtext. rewrite rttext_app. f_equal; [destruct (v_epoch v); cbn; now rewrite ?app_nil_r|].
+  rewrite rttext_cons. f_equal. induction (v_more v) as [|p r IH]; [reflexivity|]. cbn [flat_map app]. rewrite !rttext_cons, IH. reflexivity.
+Qed.
+Lemma text_vnode v : text (vnode v) = vbody_text v.
+Proof.
+  unfold vnode, vbody_text. rewrite text_node, texts_cons, text_tok. cbn [app]. f_equal.
+  rewrite texts_app, texts_ws_elems, texts_cons, text_node, texts_elems, rttext_vop.
+  rewrite !texts_app, !texts_ws_elems, texts_elems, rttext_vtext. reflexivity.
+Qed.
+Lemma text_qual_node q : text (qual_node q) = 58%N :: q_ws1 q ++ q_name q.
+Proof. unfold qual_node. rewrite text_node, texts_cons, text_tok, texts_app, texts_ws_elems, texts_one. reflexivity. Qed.
+
+Lemma texts_part {A} (f : A -> rtree) o : texts (part f o) = match o with Some (w, a) => wstext w ++ text (f a) | None => [] end.
+Proof. destruct o as [[w a]|]; [|reflexivity]. cbn [part]. now rewrite texts_app, texts_wtrees, texts_one. Qed.
+
+Lemma rel_text_nrel r extra : rel_text (nrel r extra) = text (lrel_tree r) ++ extra.
+Proof.
+  unfold lrel_tree. rewrite text_node. unfold lrel_children, rel_text, nrel. cbn [r_name r_qual r_ver r_archs r_profs r_trail].
+  rewrite texts_cons, text_tok, !texts_app, !texts_part, texts_wtrees. rewrite <- !app_assoc. f_equal.
+  f_equal; [destruct (l_qual r) as [[w q]|]; [|reflexivity]; cbn [option_map opt_text fst snd]; unfold qual_text; cbn [q_ws0 q_ws1 q_name]; now rewrite text_qual_node|].
+  f_equal; [destruct (l_ver r) as [[w v]|]; [|reflexivity]; cbn [option_map opt_text fst snd]; unfold vclause_text, vbody_text, vtext; cbn [v_ws0 v_ws1 v_ws2 v_ws3 v_op v_epoch v_ver v_more];
+            rewrite text_vnode; reflexivity|].
+  f_equal; [destruct (l_archs r) as [[w g]|]; [|reflexivity]; cbn [option_map opt_text fst snd]; unfold arch_text, group_text, group_body_text; cbn [g_ws0 g_terms g_ws1];
+            unfold arch_node; rewrite text_group_node; reflexivity|].
+  f_equal. induction (l_profs r) as [|[w g] ps IH]; [reflexivity|]. cbn [map flat_map fst snd]. rewrite texts_app, IH. f_equal.
+  unfold prof_part. cbn [fst snd]. rewrite texts_app, texts_wtrees, texts_one. unfold prof_text, group_text, group_body_text. cbn [g_ws0 g_terms g_ws1].
+  unfold prof_node. rewrite text_group_node. reflexivity.
+Qed.
+
+Lemma nalts_text alts : forall prev extra,
+  rels_text (fst (nalts prev alts extra)) (snd (nalts prev alts extra)) =
+  text (lrel_tree prev) ++ texts (flat_map alt_part alts) ++ extra.
+Proof.
+  induction alts as [|[[w1 w2] r] rest IH]; intros prev extra; cbn [nalts].
+  - cbn [fst snd rels_text flat_map]. now rewrite app_nil_r, rel_text_nrel.
+  - specialize (IH r extra). destruct (nalts r rest extra) as [r' more]. cbn [fst snd rels_text flat_map] in *.
+    rewrite rel_text_nrel, IH. rewrite texts_app. rewrite (alt_part_eq w1 w2 r).
+    rewrite !texts_app, texts_wtrees, texts_cons, texts_wtrees, texts_one. cbn [t_pipe text].
+    rewrite <- !app_assoc. cbn [app]. rewrite <- ?app_assoc. reflexivity.
+Qed.
+Lemma item_text_nentry e extra : item_text (nentry e extra) = text (lentry_tree e) ++ extra.
+Proof.
+  unfold nentry. pose proof (nalts_text (e_alts e) (e_first e) (wstext (e_trail e) ++ extra)) as H.
+  destruct (nalts (e_first e) (e_alts e) (wstext (e_trail e) ++ extra)) as [r alts]. cbn [fst snd item_text] in *. rewrite H.
+  unfold lentry_tree. rewrite text_node. unfold lentry_children. rewrite texts_cons, texts_app, texts_wtrees.
+  now rewrite <- !app_assoc.
+Qed.
+
+(* ------------------------------------------------------------------ norm: the shape of the segments *)
+Definition comma_free (l : lroot) : bool := forallb (fun x => negb (is_rc x)) l.
+Definition seg_good (need : bool) (sg : lroot) : Prop := comma_free sg = true /\ exists s, sep_run need sg = Some s.
+
+Lemma segments_cons x r : is_rc x = false ->
+  exists s ss, segments r = s :: ss /\ segments (x :: r) = (x :: s) :: ss.
+Proof.
+  intros Hx. assert (Hne : exists s ss, segments r = s :: ss).
+  { destruct r as [|y r']; [now exists [], []|]. cbn [segments]. destruct y; try (destruct (segments r'); eauto); eauto. }
+  destruct Hne as (s & ss & E). exists s, ss. split; [exact E|]. destruct x; try discriminate; cbn [segments]; now rewrite E.
+Qed.
+Lemma segments_good l : forall need s, sep_run need l = Some s ->
+  exists s0 ss, segments l = s0 :: ss /\ seg_good need s0 /\ Forall (seg_good false) ss.
+Proof.
+  induction l as [|x r IH]; intros need s H.
+  - exists [], []. repeat split; eauto.
+  - destruct x as [w| |e|seg segs].
+    + cbn [sep_run] in H. destruct (IH _ _ H) as (s0 & ss & E & (C & s1 & G) & F).
+      destruct (segments_cons (RW w) r eq_refl) as (s0' & ss' & E1 & E2). rewrite E in E1. injection E1 as <- <-.
+      exists (RW w :: s0), ss. repeat split; auto. exists s1. exact G.
+    + cbn [sep_run] in H. destruct (IH _ _ H) as (s0 & ss & E & G & F).
+      exists [], (s0 :: ss). cbn [segments]. rewrite E. repeat split; cbn [sep_run]; eauto.
+    + cbn [sep_run] in H. destruct need; [discriminate|]. destruct (IH _ _ H) as (s0 & ss & E & (C & s1 & G) & F).
+      destruct (segments_cons (RE e) r eq_refl) as (s0' & ss' & E1 & E2). rewrite E in E1. injection E1 as <- <-.
+      exists (RE e :: s0), ss. repeat split; auto. exists s1. exact G.
+    + cbn [sep_run] in H. destruct need; [discriminate|]. destruct (IH _ _ H) as (s0 & ss & E & (C & s1 & G) & F).
+      destruct (segments_cons (RS seg segs) r eq_refl) as (s0' & ss' & E1 & E2). rewrite E in E1. injection E1 as <- <-.
+      exists (RS seg segs :: s0), ss. repeat split; auto. exists s1. exact G.
+Qed.
+
+(* a good segment: white space, then nothing or one item followed by white space only *)
+Lemma take_ws_text l : texts (map rt l) = fst (take_ws l) ++ texts (map rt (snd (take_ws l))).
+Proof.
+  induction l as [|x r IH]; [reflexivity|]. destruct x as [w| | |]; try reflexivity.
+  cbn [take_ws]. destruct (take_ws r) as [s r'] eqn:E. cbn [fst snd map relem_tree] in *. rewrite texts_cons, IH.
+  destruct w as [[|] x]; cbn [wtree wtext text]; now rewrite app_assoc.
+Qed.
+Lemma take_ws_rest_not_rw l w r : snd (take_ws l) <> RW w :: r.
+Proof.
+  induction l as [|x l' IH]; [discriminate|]. destruct x; try discriminate.
+  cbn [take_ws]. destruct (take_ws l') as [s r'] eqn:E. exact IH.
+Qed.
+Lemma take_ws_all_ws l : forallb is_rw l = true -> snd (take_ws l) = [].
+Proof.
+  induction l as [|x r IH]; [reflexivity|]. cbn [forallb]. intros H. andb_hyps. destruct x; try discriminate.
+  cbn [take_ws]. specialize (IH H0). destruct (take_ws r). exact IH.
+Qed.
+Lemma take_ws_good need l : seg_good need l -> seg_good need (snd (take_ws l)).
+Proof.
+  induction l as [|x r IH]; [auto|]. intros (C & s & G). destruct x; try (split; eauto; fail).
+  cbn [take_ws]. destruct (take_ws r) as [w' r'] eqn:E. cbn [snd] in *. apply IH. cbn [comma_free forallb sep_run] in *. andb_hyps. split; eauto.
+Qed.
+Lemma after_item_all_ws r : comma_free r = true -> (exists s, sep_run true r = Some s) -> forallb is_rw r = true.
+Proof.
+  induction r as [|x r IH]; [reflexivity|]. cbn [comma_free forallb]. intros C (s & G). andb_hyps.
+  destruct x; try discriminate. cbn [sep_run is_rw andb] in *. apply IH; eauto.
+Qed.
+Inductive seg_shape : lroot -> Prop :=
+| shape_empty : seg_shape []
+| shape_item x r : is_item x = true -> forallb is_rw r = true -> seg_shape (x :: r).
+Lemma good_shape sg : seg_good false sg -> seg_shape (snd (take_ws sg)).
+Proof.
+  intros H. apply take_ws_good in H. destruct H as (C & s & G).
+  destruct (snd (take_ws sg)) as [|x r] eqn:E; [constructor|].
+  destruct x as [w| |e|seg segs].
+  - exfalso. eapply take_ws_rest_not_rw. exact E.
+  - discriminate.
+  - constructor; [reflexivity|]. cbn [comma_free forallb sep_run] in *. andb_hyps. apply after_item_all_ws; eauto.
+  - constructor; [reflexivity|]. cbn [comma_free forallb sep_run] in *. andb_hyps. apply after_item_all_ws; eauto.
+Qed.
+
+Lemma nseg_text sg : seg_good false sg -> fst (nseg sg) ++ item_text (snd (nseg sg)) = texts (map rt sg).
+Proof.
+  intros H. pose proof (good_shape sg H) as Hs. rewrite (take_ws_text sg). unfold nseg.
+  destruct (take_ws sg) as [w rest]. cbn [fst snd] in *. f_equal.
+  destruct Hs as [|x r Hx Hr]; [reflexivity|]. pose proof (take_ws_text r) as Hr'. rewrite (take_ws_all_ws r Hr) in Hr'. cbn [map] in Hr'.
+  rewrite texts_nil, app_nil_r in Hr'.
+  destruct x as [w0| |e|seg segs]; try discriminate; cbn [nitem map relem_tree]; rewrite texts_cons, Hr'.
+  - apply item_text_nentry.
+  - cbn [item_text]. now rewrite text_subst_node.
+Qed.
+
+(* the text of the whole *)
+Lemma items_text_flat more : forall i,
+  items_text i more = item_text i ++ flat_map (fun wi => 44%N :: fst wi ++ item_text (snd wi)) more.
+Proof.
+  induction more as [|[w i'] more IH]; intros i; cbn [items_text flat_map]; [reflexivity|]. rewrite IH. cbn [fst snd app].
+  now rewrite <- ?app_assoc.
+Qed.
+Lemma segments_text l : forall s0 ss, segments l = s0 :: ss ->
+  texts (map rt l) = texts (map rt s0) ++ flat_map (fun sg => 44%N :: texts (map rt sg)) ss.
+Proof.
+  induction l as [|x r IH]; intros s0 ss E.
+  - cbn in E. injection E as <- <-. reflexivity.
+  - destruct (is_rc x) eqn:Ex.
+    + destruct x; try discriminate. cbn [segments] in E. injection E as <- <-.
+      destruct (segments r) as [|s1 ss1] eqn:E1.
+      * exfalso. destruct r as [|y r']; [discriminate|]. cbn [segments] in E1. destruct y; try discriminate; destruct (segments r'); discriminate.
+      * cbn [map relem_tree flat_map]. rewrite texts_cons, (IH _ _ eq_refl). reflexivity.
+    + destruct (segments_cons x r Ex) as (s & ss' & E1 & E2). rewrite E2 in E. injection E as <- <-.
+      cbn [map]. rewrite !texts_cons, (IH _ _ E1). now rewrite app_assoc.
+Qed.
+
+Theorem rrender_norm b l : lwf b l = true -> rrender (norm l) = text (ltree l).
+Proof.
+  intros H. destruct (lwf_split _ _ H) as (_ & s & Hs). destruct (segments_good l false s Hs) as (s0 & ss & E & G0 & G).
+  unfold ltree. rewrite text_node, (segments_text l s0 ss E). unfold norm. rewrite E. cbn [map].
+  destruct (nseg s0) as [w i] eqn:E0. unfold rrender. cbn [f_lead f_first f_rest]. rewrite items_text_flat, app_assoc.
+  pose proof (nseg_text s0 G0) as H0. rewrite E0 in H0. cbn [fst snd] in H0. rewrite H0. f_equal.
+  clear E. induction G as [|sg ss' Hg _ IH]; [reflexivity|]. cbn [map flat_map]. rewrite IH. now rewrite (nseg_text sg Hg).
+Qed.
